@@ -53,8 +53,8 @@ Proof. exact ok_mesh_valid. Qed.
 Print Assumptions C07_valid.
 
 (* the kernel-side fact behind it: whatever add_cell stores, in any configuration, designates existing halffaces *)
-Theorem C07_add_cell_valid : forall o faces hs s,
-  Forall (in_lim (2 * len faces)) hs -> mesh_add_cell o faces hs = Ret (Some s) -> Forall (in_lim (2 * len faces)) s.
+Theorem C07_add_cell_valid : forall o edges faces hs s,
+  Forall (in_lim (2 * len faces)) hs -> mesh_add_cell o edges faces hs = Ret (Some s) -> Forall (in_lim (2 * len faces)) s.
 Proof. exact mesh_add_cell_valid. Qed.
 Print Assumptions C07_add_cell_valid.
 
